@@ -54,6 +54,8 @@ pub enum POp {
     L(f32, f32),
     Q(f32, f32, f32, f32),
     C(f32, f32, f32, f32, f32, f32),
+    /// PathBuilder::arc(x, y, r, start, sweep)
+    A(f32, f32, f32, f32, f32),
     Z,
 }
 
@@ -86,6 +88,7 @@ impl PathSpec {
                 POp::L(x, y) => pb.line_to(x, y),
                 POp::Q(a, b, c, d) => pb.quad_to(a, b, c, d),
                 POp::C(a, b, c, d, e, f) => pb.cubic_to(a, b, c, d, e, f),
+                POp::A(x, y, r, st, sw) => pb.arc(x, y, r, st, sw),
                 POp::Z => pb.close(),
             }
         }
@@ -257,6 +260,18 @@ pub enum Op {
     PushLayer(f32, BlendMode),
     PopLayer,
     SetTransform(Xf),
+    /// copy_surface / blend_surface / blend_surface_with_alpha from a (sw x sh) source with
+    /// distinct pixels: kind, sw, sh, src_rect, dst
+    Surface(SurfKind, i32, i32, [i32; 4], [i32; 2]),
+    /// Path::flatten(tol) + Path::contains_point(tol, x, y) + Path::transform(current CTM)
+    Query(PathSpec, f32, f32, f32),
+}
+
+#[derive(Clone, Copy, Debug, PartialEq)]
+pub enum SurfKind {
+    Copy,
+    Blend(BlendMode),
+    Alpha(f32),
 }
 
 impl Op {
@@ -275,6 +290,10 @@ impl Op {
             Op::PushLayer(..) => "push_layer",
             Op::PopLayer => "pop_layer",
             Op::SetTransform(..) => "set_transform",
+            Op::Surface(SurfKind::Copy, ..) => "copy_surface",
+            Op::Surface(SurfKind::Blend(_), ..) => "blend_surface",
+            Op::Surface(SurfKind::Alpha(_), ..) => "blend_surface_with_alpha",
+            Op::Query(..) => "path_query",
         }
     }
     pub fn is_draw(&self) -> bool {
@@ -314,6 +333,25 @@ pub fn exec(dt: &mut DrawTarget, op: &Op) {
         Op::PushLayer(o, b) => dt.push_layer_with_blend(*o, *b),
         Op::PopLayer => dt.pop_layer(),
         Op::SetTransform(t) => dt.set_transform(&xf_to(t)),
+        Op::Surface(k, sw, sh, r, d) => {
+            let n = (*sw * *sh).max(0) as usize;
+            let src = DrawTarget::from_vec(*sw, *sh, (0..n).map(|i| DISTINCT16[(i * 3 + 1) % 16]).collect());
+            let rect = IntRect::new(IntPoint::new(r[0], r[1]), IntPoint::new(r[2], r[3]));
+            let p = IntPoint::new(d[0], d[1]);
+            match k {
+                SurfKind::Copy => dt.copy_surface(&src, rect, p),
+                SurfKind::Blend(m) => dt.blend_surface(&src, rect, p, *m),
+                SurfKind::Alpha(a) => dt.blend_surface_with_alpha(&src, rect, p, *a),
+            }
+        }
+        Op::Query(p, tol, x, y) => {
+            let path = p.build();
+            let f = path.flatten(*tol);
+            let _ = std::hint::black_box(f.ops.len());
+            let _ = std::hint::black_box(path.contains_point(*tol, *x, *y));
+            let t = *dt.get_transform();
+            let _ = std::hint::black_box(path.transform(&t).ops.len());
+        }
     }
 }
 
@@ -389,6 +427,7 @@ impl fmt::Display for PathSpec {
                 POp::L(x, y) => write!(f, ";L,{}", fl(&[x, y]))?,
                 POp::Q(a, b, c, d) => write!(f, ";Q,{}", fl(&[a, b, c, d]))?,
                 POp::C(a, b, c, d, e, g) => write!(f, ";C,{}", fl(&[a, b, c, d, e, g]))?,
+                POp::A(a, b, c, d, e) => write!(f, ";A,{}", fl(&[a, b, c, d, e]))?,
                 POp::Z => write!(f, ";Z")?,
             }
         }
@@ -443,6 +482,15 @@ impl fmt::Display for Op {
             Op::PushLayer(o, b) => write!(f, "push_layer {} {}", ff(*o), mode_name(*b)),
             Op::PopLayer => write!(f, "pop_layer"),
             Op::SetTransform(t) => write!(f, "set_transform {}", fl(t)),
+            Op::Surface(k, sw, sh, r, d) => {
+                let ks = match k {
+                    SurfKind::Copy => "copy".to_string(),
+                    SurfKind::Blend(m) => format!("blend:{}", mode_name(*m)),
+                    SurfKind::Alpha(a) => format!("alpha:{}", ff(*a)),
+                };
+                write!(f, "surface {} {} {} {} {} {} {} {} {}", ks, sw, sh, r[0], r[1], r[2], r[3], d[0], d[1])
+            }
+            Op::Query(p, tol, x, y) => write!(f, "path_query {} {} {} {}", p, ff(*tol), ff(*x), ff(*y)),
         }
     }
 }
@@ -522,6 +570,7 @@ pub fn parse_path(tok: &str) -> Result<PathSpec, String> {
             ("L", 2) => POp::L(v[0], v[1]),
             ("Q", 4) => POp::Q(v[0], v[1], v[2], v[3]),
             ("C", 6) => POp::C(v[0], v[1], v[2], v[3], v[4], v[5]),
+            ("A", 5) => POp::A(v[0], v[1], v[2], v[3], v[4]),
             _ => return Err(format!("bad path op '{}'", p)),
         });
     }
@@ -669,6 +718,23 @@ pub fn parse_op(s: &str) -> Result<Op, String> {
         "set_transform" => {
             need(2)?;
             Ok(Op::SetTransform(arr::<6>(pfl(t[1])?)?))
+        }
+        "surface" => {
+            need(10)?;
+            let k = if t[1] == "copy" {
+                SurfKind::Copy
+            } else if let Some(m) = t[1].strip_prefix("blend:") {
+                SurfKind::Blend(mode_from(m)?)
+            } else if let Some(a) = t[1].strip_prefix("alpha:") {
+                SurfKind::Alpha(pf(a)?)
+            } else {
+                return Err(format!("bad surface kind {}", t[1]));
+            };
+            Ok(Op::Surface(k, pi(t[2])?, pi(t[3])?, [pi(t[4])?, pi(t[5])?, pi(t[6])?, pi(t[7])?], [pi(t[8])?, pi(t[9])?]))
+        }
+        "path_query" => {
+            need(5)?;
+            Ok(Op::Query(parse_path(t[1])?, pf(t[2])?, pf(t[3])?, pf(t[4])?))
         }
         o => Err(format!("unknown op {}", o)),
     }
